@@ -211,22 +211,26 @@ def _one_cart(ctx, rng, workdir, verbosity):
             P8Formatter.to_file(g2, buf2)
             data2 = buf2.getvalue()
         elif entry == 'path':
-            p1 = os.path.join(workdir, 'a.p8')
-            p2 = os.path.join(workdir, 'b.p8')
+            base = carts.cart_basename(rng.randrange(64))
+            ctx.feature('file_name:' + base)
+            p1 = os.path.join(workdir, base + '.p8')
+            p2 = os.path.join(workdir, base + '-copy.p8')
             p8file.to_file(g, p1)
             data1 = open(p1, 'rb').read()
             g2 = p8file.from_file(p1)
             p8file.to_file(g2, p2)
             data2 = open(p2, 'rb').read()
         else:
-            p1 = os.path.join(workdir, 'c.p8')
+            base = carts.cart_basename(rng.randrange(64))
+            ctx.feature('file_name:' + base)
+            p1 = os.path.join(workdir, base + '.p8')
             p8file.to_file(g, p1)
             data1 = open(p1, 'rb').read()
             rcode = tool.main({'quiet': ['-q'], 'debug': ['--debug'], 'normal': []}[verbosity] + ['writep8', p1])
             if rcode != 0:
                 ctx.violation('p8tool writep8 returned %r' % rcode, case)
                 return
-            pf = os.path.join(workdir, 'c_fmt.p8')
+            pf = os.path.join(workdir, base + '_fmt.p8')
             data2 = open(pf, 'rb').read()
             g2 = p8file.from_file(pf)
             ctx.monitor('cli_writep8_runs')
@@ -301,6 +305,9 @@ def gates(m, tier):
               'code_object_of_another_version', 'version0_cart_with_foreign_code_object'):
         if f.get(k, 0) < 10:
             missed.append('%s seen %d times' % (k, f.get(k, 0)))
+    names = [k for k in f if k.startswith('file_name:')]
+    if len(names) < len(carts.CART_BASENAMES):
+        missed.append('file base names used: %d of %d' % (len(names), len(carts.CART_BASENAMES)))
     if mon.get('round_trips_observed', 0) < 200 or mon.get('reference_reads_compared', 0) < 200:
         missed.append('too few round trips observed')
     for name, _ in rc.REGIONS:
